@@ -50,7 +50,7 @@ fn main() {
     // panics inside the subject are caught and reported as violations; keep stderr quiet
     std::panic::set_hook(Box::new(|info| {
         let msg = info.to_string();
-        if msg.contains("harness:") {
+        if msg.contains("harness:") || std::env::var("VERIF_DEBUG").is_ok() {
             eprintln!("{}", msg);
         }
     }));
@@ -64,6 +64,9 @@ fn main() {
         "C06" => props::c06::run(&ctx),
         "C07" => props::c07::run(&ctx),
         "C08" => props::c08::run(&ctx),
+        "C09" => props::c09::run(&ctx),
+        "C10" => props::c10::run(&ctx),
+        "C11" => props::c11::run(&ctx),
         _ => {
             eprintln!("unknown or unclaimed property {}", prop);
             std::process::exit(2);
